@@ -19,7 +19,11 @@ Section Ioni.
     let momentum := nsqrt (t_e * (t_e + n2 * m_e)) in
     let costheta := ioni_costheta e_inc p_inc m_inc t_e m_e in
     sdir <- exiting_direction costheta dir ;;
-    ret (Inter Scattered (e_inc - t_e) (calc_exiting_direction p_inc dir momentum sdir)
+    (* since /repo a57af2a: a primary stopped by the collision (E' = 0, Bhabha at the kinematic maximum) keeps the
+       incident direction; the momentum difference cannot be normalised *)
+    let e_out := e_inc - t_e in
+    ret (Inter Scattered e_out
+           (if n0 <? e_out then calc_exiting_direction p_inc dir momentum sdir else dir)
            [Sec PElectron t_e sdir] n0).
 
   (** ** Moller *)
